@@ -281,9 +281,11 @@ def tempfile_decorator(func):
             # can't be opened a second time on Windows...see, e.g.,
             # https://github.com/Kotaimen/awscfncli/issues/93
             f = NamedTemporaryFile(mode="r+", suffix=".hdf5", delete=False)
-            f.close()
 
             try:
+                # the file exists from here on: closing it can fail as well
+                f.close()
+
                 # write samples to tempfile and recursively call this method
                 prior_samples.write(f.name, overwrite=True)
                 kwargs["prior_samples_file"] = f.name
